@@ -105,6 +105,20 @@ class State:
         return out
 
 
+def _retract_guards(st, saved, guards):
+    """Remove the temporary guards pushed since `saved`, keep every other fact that was assumed in
+    the meantime, conditioned on the guards that were active."""
+    added = st.pc[saved:]
+    del st.pc[saved:]
+    gids = {g.get_id() for g in guards}
+    active = []
+    for f in added:
+        if f.get_id() in gids:
+            active.append(f)
+        else:
+            st.pc.append(z3.Implies(z3.And(active), f) if active else f)
+
+
 class _NS:
     """Attribute view of the environment for invariants: st.result, st.self ..."""
 
@@ -159,6 +173,7 @@ class Engine:
         self.concrete = False  # differential self-test mode: concrete inputs, loops unrolled, callees inlined
         self.definitional = {}
         self.listings = {}
+        self.call_memo = {}
         self.ghosts = {}
         self.global_axioms = []
 
@@ -176,6 +191,8 @@ class Engine:
             return NONE
         if sort == "Perm":
             return self.fresh_perm(name, st, assume=False)
+        if sort.startswith("Perm*"):
+            return TupV([self.fresh_perm(f"{name}{i}", st, assume=False) for i in range(int(sort[5:]))])
         if sort == "Seq":  # arbitrary finite int sequence
             n = fresh(name + "_n")
             st.assume(n >= 0)
@@ -252,6 +269,9 @@ class Engine:
                 self.model_vars[name] = ("bool", v.t)
             elif isinstance(v, SeqV) and "fun" in v.meta:
                 self.model_vars[name] = ("seq", v.meta["len"], v.meta["fun"])
+            elif isinstance(v, TupV) and all(isinstance(x, SeqV) and "fun" in x.meta for x in v.items):
+                for i_, x in enumerate(v.items):
+                    self.model_vars[f"{name}{i_}"] = ("seq", x.meta["len"], x.meta["fun"])
             elif isinstance(v, ObjV) and "pattern" in v.fields:
                 pt = v.fields["pattern"]
                 self.model_vars[name + ".pattern"] = ("seq", pt.meta["len"], pt.meta["fun"])
@@ -345,6 +365,12 @@ class Engine:
         return self.obls[start:]
 
     def emit(self, kind, st, goal, tag=""):
+        gb = B(goal)
+        if not self.concrete and z3.is_eq(gb) and z3.is_bool(gb.arg(0)) and (_has_quant(gb.arg(0)) or _has_quant(gb.arg(1))):
+            # an equivalence between quantified formulas is proved as two implications
+            self.emit(kind, st, z3.Implies(gb.arg(0), gb.arg(1)), tag + "=>")
+            self.emit(kind, st, z3.Implies(gb.arg(1), gb.arg(0)), tag + "<=")
+            return
         if self.concrete:
             if kind in ("divisor-positive", "minmax-nonempty", "list-repeat-nonneg", "unpack-arity", "islice-nonneg") or kind.startswith("assert["):
                 cc = BoolV(B(goal)).concrete()
@@ -825,6 +851,9 @@ class Engine:
             if isinstance(sample, TupV):
                 funs = [fresh_fun(nm, z3.IntSort(), z3.IntSort()) for _ in sample.items]
                 return ListV(n, lambda i, funs=funs: TupV([IntV(f(i)) for f in funs]))
+            if isinstance(sample, BoolV):
+                Fb = fresh_fun(nm, z3.IntSort(), z3.BoolSort())
+                return ListV(n, lambda i, Fb=Fb: BoolV(Fb(i)))
             F = fresh_fun(nm, z3.IntSort(), z3.IntSort())
             return ListV(n, lambda i, F=F: IntV(F(i)))
         if isinstance(cur, TupV):
@@ -954,10 +983,16 @@ class Engine:
 
     def ev_List(self, node, st):
         items = [self.ev(e, st) for e in node.elts]
-        lv = ListV(0, lambda i: IntV(0))
-        for it in items:
-            lv.append(it)
-        return lv
+        if not items:
+            return ListV(0, lambda i: IntV(0))
+
+        def fn(j, items=items):
+            out = items[-1]
+            for k in range(len(items) - 2, -1, -1):
+                out = vite(j == k, items[k], out)
+            return out
+
+        return ListV(len(items), fn)
 
     def ev_Attribute(self, node, st):
         base = self.ev(node.value, st)
@@ -1018,11 +1053,16 @@ class Engine:
             # symbolic divisor: explicit quotient (axiomatised functions), requires y > 0
             self.emit("divisor-positive", st, y > 0)
             return IntV(QUO(x, y)) if isinstance(op, ast.FloorDiv) else IntV(REM(x, y))
+        if isinstance(op, ast.LShift):
+            yc = z3.simplify(y)
+            if z3.is_int_value(yc) and 0 <= yc.as_long() <= 62:
+                return IntV(x * (2 ** yc.as_long()))
         raise Unsupported(f"binary operator {type(op).__name__} on unbounded ints")
 
     def ev_BoolOp(self, node, st):
         vals = []
         saved = len(st.pc)
+        guards = []
         try:
             for e in node.values:
                 v = self.ev(e, st)
@@ -1032,9 +1072,11 @@ class Engine:
                     tc = BoolV(t).concrete()
                     if tc is (False if isinstance(node.op, ast.And) else True):
                         break  # Python's short circuit: the remaining operands are not evaluated
-                st.pc.append(t if isinstance(node.op, ast.And) else z3.Not(t))
+                gd = t if isinstance(node.op, ast.And) else z3.Not(t)
+                guards.append(gd)
+                st.pc.append(gd)
         finally:
-            del st.pc[saved:]
+            _retract_guards(st, saved, guards)
         if all(isinstance(v, (BoolV, bool)) for v, _ in vals):
             ts = [t for _, t in vals]
             return BoolV(z3.And(ts) if isinstance(node.op, ast.And) else z3.Or(ts))
@@ -1044,6 +1086,7 @@ class Engine:
         left = self.ev(node.left, st)
         parts = []
         saved = len(st.pc)
+        guards = []
         try:
             for op, rn in zip(node.ops, node.comparators):
                 right = self.ev(rn, st)
@@ -1051,10 +1094,11 @@ class Engine:
                 parts.append(t)
                 if self.concrete and BoolV(t).concrete() is False:
                     break  # chained comparison short-circuits
+                guards.append(t)
                 st.pc.append(t)
                 left = right
         finally:
-            del st.pc[saved:]
+            _retract_guards(st, saved, guards)
         return BoolV(z3.And(parts) if len(parts) > 1 else parts[0])
 
     def compare(self, op, a, b, st):
@@ -1114,12 +1158,14 @@ class Engine:
         try:
             a = self.ev(node.body, st)
         finally:
-            del st.pc[saved:]
-        st.pc.append(z3.Not(cond))
+            _retract_guards(st, saved, [cond])
+        saved = len(st.pc)
+        ncond = z3.Not(cond)
+        st.pc.append(ncond)
         try:
             b = self.ev(node.orelse, st)
         finally:
-            del st.pc[saved:]
+            _retract_guards(st, saved, [ncond])
         cc = BoolV(cond).concrete()
         if cc is True:
             return a
@@ -1492,8 +1538,29 @@ class Engine:
             c.side.clear()
             for j, conj in enumerate(_conjuncts(B(pre))):
                 self.emit("pre@callsite", st, conj, f"[{name}].{j}")
+        # a contracted function is a function of its arguments (frames: modifies == ()): the same
+        # callee applied to the same argument values denotes the same result
+        def _ident(a):
+            if isinstance(a, SeqV):
+                f_ = a.meta.get("fun")
+                return ("seq", f_.get_id() if f_ is not None else id(a))
+            if isinstance(a, ObjV):
+                return ("obj", a.cls, tuple(_ident(v) for v in a.fields.values()))
+            if isinstance(a, SetV):
+                f_ = getattr(a, "fun", None)
+                return ("set", f_.get_id() if f_ is not None else id(a))
+            if isinstance(a, (IntV, BoolV)):
+                return ("t", a.t.get_id())
+            if isinstance(a, TupV):
+                return ("tup", tuple(_ident(v) for v in a.items))
+            return ("py", repr(a))
+
+        mkey = (name,) + tuple(_ident(v) for v in vals)
+        if mkey in self.call_memo:
+            return self.call_memo[mkey]
         tmp = State()
         res = self.fresh_result(K, tmp)
+        self.call_memo[mkey] = res
         if K.ensures:
             post = K.ensures(c, *vals, res)
             facts = tmp.pc + [B(post)] + c.side
@@ -1534,21 +1601,62 @@ class Engine:
         raise Unsupported(f"result sort {r}")
 
 
-BUILTIN_NAMES = {"len", "range", "enumerate", "zip", "reversed", "sum", "all", "any", "min", "max", "abs", "set", "frozenset", "tuple", "list", "sorted", "isinstance", "int", "itertools", "islice", "chain", "divmod", "next", "iter", "map", "filter", "bool"}
+BUILTIN_NAMES = {"str", "float", "numbers", "tee", "len", "range", "enumerate", "zip", "reversed", "sum", "all", "any", "min", "max", "abs", "set", "frozenset", "tuple", "list", "sorted", "isinstance", "int", "itertools", "islice", "chain", "divmod", "next", "iter", "map", "filter", "bool"}
+
+
+def _inst(q):
+    """Body of quantifier q with its bound variables replaced by fresh constants."""
+    k = q.num_vars()
+    cs = [z3.Const(f"sk!{q.var_name(i)}!{next(_SK)}", q.var_sort(i)) for i in range(k)]
+    return z3.substitute_vars(q.body(), *reversed(cs)), [c_ for c_ in cs if z3.is_int(c_)]
+
+
+def _hyp_skolem(h, consts, depth=0):
+    """Existential content of a hypothesis is opened with fresh constants (sound: the constants
+    are new names for the witnesses)."""
+    if depth > 6:
+        return [h]
+    if z3.is_quantifier(h) and h.is_exists():
+        body, cs = _inst(h)
+        consts.extend(cs)
+        return _hyp_skolem(body, consts, depth + 1)
+    if z3.is_not(h) and z3.is_quantifier(h.arg(0)) and h.arg(0).is_forall():
+        body, cs = _inst(h.arg(0))
+        consts.extend(cs)
+        return _hyp_skolem(z3.Not(body), consts, depth + 1)
+    if z3.is_and(h):
+        out = []
+        for ch in h.children():
+            out += _hyp_skolem(ch, consts, depth + 1)
+        return out
+    if z3.is_not(h) and z3.is_not(h.arg(0)):
+        return _hyp_skolem(h.arg(0).arg(0), consts, depth + 1)
+    return [h]
 
 
 def skolemize(hyps, goal):
-    """hyps |- goal  with goal = A => forall x. B  becomes  hyps, A |- B[x := fresh]."""
+    """hyps |- goal  with goal = A => forall x. B  becomes  hyps, A |- B[x := fresh];  existential
+    antecedents are opened,  not exists x. B  is treated as  forall x. not B."""
     consts = []
-    for _ in range(12):
+    for _ in range(16):
         if z3.is_implies(goal):
-            hyps.append(goal.arg(0))
+            hyps.extend(_hyp_skolem(goal.arg(0), consts))
             goal = goal.arg(1)
         elif z3.is_quantifier(goal) and goal.is_forall():
-            k = goal.num_vars()
-            cs = [z3.Const(f"sk!{goal.var_name(i)}!{next(_SK)}", goal.var_sort(i)) for i in range(k)]
-            goal = z3.substitute_vars(goal.body(), *reversed(cs))
-            consts.extend(c_ for c_ in cs if z3.is_int(c_))
+            goal, cs = _inst(goal)
+            consts.extend(cs)
+        elif z3.is_not(goal) and z3.is_quantifier(goal.arg(0)) and goal.arg(0).is_exists():
+            body, cs = _inst(goal.arg(0))
+            consts.extend(cs)
+            goal = z3.Not(body)
+        elif z3.is_not(goal) and z3.is_and(goal.arg(0)) and goal.arg(0).num_args() >= 1:
+            # not (a and b and ...)  ==  a and ... => not last
+            parts = goal.arg(0).children()
+            for a_ in parts[:-1]:
+                hyps.extend(_hyp_skolem(a_, consts))
+            goal = z3.Not(parts[-1])
+        elif z3.is_not(goal) and z3.is_not(goal.arg(0)):
+            goal = goal.arg(0).arg(0)
         else:
             break
     return hyps, goal, consts
@@ -1557,6 +1665,14 @@ def skolemize(hyps, goal):
 import itertools as _it  # noqa: E402
 
 _SK = _it.count()
+
+
+def _has_quant(f, depth=0):
+    if z3.is_quantifier(f):
+        return True
+    if depth > 8 or not z3.is_app(f):
+        return False
+    return any(_has_quant(ch, depth + 1) for ch in f.children())
 
 
 def _conjuncts(f):
